@@ -1,0 +1,92 @@
+// Verification hooks. Compiled only with the `verif-hooks` cargo feature, which nothing enables
+// by default; see /verif/DESIGN.md. Add-only: no existing line of the crate depends on this file.
+
+//! Scheduling hooks and state probes used by the external model-based verification harness.
+//!
+//! `yield_point` is called immediately before every acquisition of the chunker's mutex and
+//! immediately before every `Waker::wake` call. The harness installs a per-thread callback that
+//! blocks until its scheduler hands the baton back, so that the interleaving of a producer thread
+//! and a consumer thread is a deterministic function of a schedule.
+
+use std::cell::RefCell;
+
+/// A synchronization site in `chunker.rs`.
+#[derive(Copy, Clone, Debug, PartialEq, Eq)]
+pub enum Site {
+    /// `Reader::size_hint`, before `lock()`.
+    HintLock,
+    /// `Reader::is_end_stream`, before `lock()`.
+    EosLock,
+    /// `Reader::poll_next`, before `lock()`.
+    PollLock,
+    /// `Reader::drop`, before `lock()`.
+    ReaderDropLock,
+    /// `Writer::abort`, before `lock()`.
+    AbortLock,
+    /// `Writer::flush_helper`, before `lock()`.
+    FlushLock,
+    /// `Writer::abort`, before `wake()`.
+    AbortWake,
+    /// `Writer::flush_helper`, before `wake()`.
+    FlushWake,
+}
+
+impl Site {
+    /// A short stable name for trace files.
+    pub fn name(self) -> &'static str {
+        match self {
+            Site::HintLock => "hint_lock",
+            Site::EosLock => "eos_lock",
+            Site::PollLock => "poll_lock",
+            Site::ReaderDropLock => "rdrop_lock",
+            Site::AbortLock => "abort_lock",
+            Site::FlushLock => "flush_lock",
+            Site::AbortWake => "abort_wake",
+            Site::FlushWake => "flush_wake",
+        }
+    }
+}
+
+type Hook = Box<dyn FnMut(Site)>;
+
+thread_local! {
+    static HOOK: RefCell<Option<Hook>> = const { RefCell::new(None) };
+}
+
+/// Installs (or with `None`, removes) the calling thread's yield-point callback.
+pub fn set_thread_hook(hook: Option<Hook>) {
+    HOOK.with(|h| *h.borrow_mut() = hook);
+}
+
+pub(crate) fn yield_point(site: Site) {
+    // Take the hook out while it runs so that a re-entrant yield point (there is none today)
+    // cannot double-borrow.
+    let hook = HOOK.with(|h| h.borrow_mut().take());
+    if let Some(mut hook) = hook {
+        hook(site);
+        HOOK.with(|h| {
+            let mut h = h.borrow_mut();
+            if h.is_none() {
+                *h = Some(hook);
+            }
+        });
+    }
+}
+
+/// A copy of the chunker's shared state, taken under its mutex.
+#[derive(Clone, Debug, PartialEq, Eq)]
+pub struct Snapshot {
+    /// `"ok"`, `"err"` or `"fused"`.
+    pub state: &'static str,
+    /// Lengths of the queued chunks, front first (empty unless `state == "ok"`).
+    pub ready: Vec<usize>,
+    /// The `ready_bytes` counter (0 unless `state == "ok"`).
+    pub ready_bytes: usize,
+    /// The `writer_dropped` flag (false unless `state == "ok"`).
+    pub writer_dropped: bool,
+    /// `None` if no waker is registered; otherwise the index of the first of the supplied wakers
+    /// that the registered one `will_wake`, or `usize::MAX` if none.
+    pub waker: Option<usize>,
+}
+
+pub use crate::chunker::Probe;
